@@ -13,6 +13,8 @@ Decided (clause 3 only: merge commands are never evaluated by the policy; struct
         insert (a spilled block is looked up through that range).
  R5 K6  spill offsets come from an append-only allocation cursor (advanced by the bytes written,
         written nowhere else), the same value goes into the root entry's file_offset.
+ R6 K1  every braid starts from an empty strand heap (StrandHeap::clear empties heap and flag; braid()
+        takes the heap through the clearing accessor).
 Not decided: exactly-once and ancestor-first on arbitrary DAGs and spill paths (value-level:
 depends on convergence counts and skip-list contents)."""
 from rules.core import pat, rt
@@ -103,6 +105,7 @@ def run(F, rep, tier):
         rep.check(ok, "VmPolicy::call_rule|merge-is-bug", "K2 guarded-by",
                   "a Prior::Merge command returns a Bug before any open/evaluation/sink call", site=g.site())
     block_summary_rule(F, rep)
+    rt.rule_strand_heap_reset(F, rep)
 
 
 def block_summary_rule(F, rep):
